@@ -8,6 +8,8 @@
 -/
 import Krp.Lemmas.Wait
 import Krp.Init
+import Krp.Lemmas.Reach
+import Krp.Lemmas.HubSpec
 namespace Krp
 open HubSt
 
@@ -237,5 +239,253 @@ theorem C07_withdraw_step (h h' : HubSt) (e : HubEnv) (sender : Addr) (ms : List
     exact ⟨rfl, rfl, rfl, rfl, rfl, rfl, rfl⟩
   · have := r.2.2 u i hne
     exact ⟨by show _ = h.waitB u i; rw [← sp.1]; exact this.1, by show _ = h.waitS u i; rw [← sp.2.1]; exact this.2⟩
+
+/-! ### Every hub message, every reachable state
+
+  `KeepsClaims h h'`: the claim bookkeeping (wait lists, history, open batch) and the legacy list are
+  literally unchanged.  Every handler other than Unbond / WithdrawUnbonded / wait-list migration is
+  of that kind. -/
+
+structure KeepsClaims (h h' : HubSt) : Prop where
+  same : SameClaims h h'
+  legacy : h'.legacy = h.legacy
+
+theorem KeepsClaims.refl (h : HubSt) : KeepsClaims h h := ⟨⟨rfl, rfl, rfl, rfl, rfl, rfl, rfl⟩, rfl⟩
+
+theorem KeepsClaims.trans {a b c : HubSt} (x : KeepsClaims a b) (y : KeepsClaims b c) : KeepsClaims a c :=
+  ⟨⟨y.same.keys.trans x.same.keys, y.same.waitB.trans x.same.waitB, y.same.waitS.trans x.same.waitS,
+    y.same.hist.trans x.same.hist, y.same.batchId.trans x.same.batchId, y.same.reqB.trans x.same.reqB,
+    y.same.reqS.trans x.same.reqS⟩, y.legacy.trans x.legacy⟩
+
+theorem actualState_keeps (h st : HubSt) (e : HubEnv) (hx : h.actualState e = .ok st) : KeepsClaims h st := by
+  unfold actualState at hx
+  split at hx
+  · injection hx with hx; subst hx; exact KeepsClaims.refl _
+  · split at hx
+    · injection hx with hx; subst hx; exact KeepsClaims.refl _
+    · exc_norm at hx
+      exc_split at hx
+      all_goals exact ⟨⟨rfl, rfl, rfl, rfl, rfl, rfl, rfl⟩, rfl⟩
+
+theorem bondB_keeps (h h' : HubSt) (e : HubEnv) (s : Addr) (f : List (Denom × Nat)) (ms : List Msg)
+    (hx : h.bondB e s f = .ok (h', ms)) : KeepsClaims h h' := by
+  obtain ⟨p, st, mint, dl, tok, _, hst, _, _, _, _, hh, _⟩ := bondB_spec h h' e s f ms hx
+  subst hh
+  exact (actualState_keeps h st e hst).trans ⟨⟨rfl, rfl, rfl, rfl, rfl, rfl, rfl⟩, rfl⟩
+
+theorem bondS_keeps (h h' : HubSt) (e : HubEnv) (s : Addr) (f : List (Denom × Nat)) (ms : List Msg)
+    (hx : h.bondS e s f = .ok (h', ms)) : KeepsClaims h h' := by
+  obtain ⟨p, st, dl, tok, _, hst, _, _, _, hh, _⟩ := bondS_spec h h' e s f ms hx
+  subst hh
+  exact (actualState_keeps h st e hst).trans ⟨⟨rfl, rfl, rfl, rfl, rfl, rfl, rfl⟩, rfl⟩
+
+theorem bondR_keeps (h h' : HubSt) (e : HubEnv) (s : Addr) (f : List (Denom × Nat)) (ms : List Msg)
+    (hx : h.bondR e s f = .ok (h', ms)) : KeepsClaims h h' := by
+  obtain ⟨p, st, _, _, hst, _, hh⟩ := bondR_spec h h' e s f ms hx
+  subst hh
+  exact (actualState_keeps h st e hst).trans ⟨⟨rfl, rfl, rfl, rfl, rfl, rfl, rfl⟩, rfl⟩
+
+theorem convertSB_keeps (h h' : HubSt) (e : HubEnv) (a : Nat) (u : Addr) (ms : List Msg)
+    (hx : h.convertSB e a u = .ok (h', ms)) : KeepsClaims h h' := by
+  obtain ⟨st, _, _, _, _, _, hst, _, _, _, _, _, _, _, _, hh, _⟩ := convertSB_spec h h' e a u ms hx
+  subst hh
+  exact (actualState_keeps h st e hst).trans ⟨⟨rfl, rfl, rfl, rfl, rfl, rfl, rfl⟩, rfl⟩
+
+theorem convertBS_keeps (h h' : HubSt) (e : HubEnv) (a : Nat) (u : Addr) (ms : List Msg)
+    (hx : h.convertBS e a u = .ok (h', ms)) : KeepsClaims h h' := by
+  obtain ⟨st, _, _, _, _, _, hst, _, _, _, _, _, _, _, _, hh, _⟩ := convertBS_spec h h' e a u ms hx
+  subst hh
+  exact (actualState_keeps h st e hst).trans ⟨⟨rfl, rfl, rfl, rfl, rfl, rfl, rfl⟩, rfl⟩
+
+theorem updateGlobal_keeps (h h' : HubSt) (e : HubEnv) (s : Addr) (ms : List Msg)
+    (hx : h.updateGlobal e s = .ok (h', ms)) : KeepsClaims h h' := by
+  unfold updateGlobal at hx
+  exc_norm at hx
+  exc_split at hx
+  all_goals exact ⟨⟨rfl, rfl, rfl, rfl, rfl, rfl, rfl⟩, rfl⟩
+
+theorem updateParams_keeps (h h' : HubSt) (s : Addr) (a b c d : Option Nat) (p : Option Bool) (r : Option Denom)
+    (hx : h.updateParams s a b c d p r = .ok h') : KeepsClaims h h' := by
+  unfold updateParams at hx
+  exc_norm at hx
+  exc_split at hx
+  all_goals exact ⟨⟨rfl, rfl, rfl, rfl, rfl, rfl, rfl⟩, rfl⟩
+
+theorem updateConfig_keeps (h h' : HubSt) (self s : Addr) (a b c d f g u : Option Addr) (ms : List Msg)
+    (hx : h.updateConfig self s a b c d f g u = .ok (h', ms)) : KeepsClaims h h' := by
+  unfold updateConfig at hx
+  exc_norm at hx
+  exc_split at hx
+  all_goals exact ⟨⟨rfl, rfl, rfl, rfl, rfl, rfl, rfl⟩, rfl⟩
+
+theorem delWait_fold_legacy (ids : List Nat) (u : Addr) (h : HubSt) :
+    (ids.foldl (fun hh i => hh.delWait u i) h).legacy = h.legacy := by
+  induction ids generalizing h with
+  | nil => rfl
+  | cons b bs ih => simp only [List.foldl_cons]; rw [ih]; rfl
+
+theorem processWithdrawRate_legacy (h h' : HubSt) (c b : Nat) (hx : h.processWithdrawRate c b = .ok h') :
+    h'.legacy = h.legacy := by
+  unfold processWithdrawRate at hx
+  simp only [] at hx
+  exc_split at hx
+  all_goals rfl
+
+theorem processUndelegations_legacy (h h' : HubSt) (e : HubEnv) (ms : List Msg)
+    (hx : h.processUndelegations e = .ok (h', ms)) : h'.legacy = h.legacy := by
+  unfold processUndelegations at hx; exc_split at hx; rfl
+
+/-- **Every hub message.** Whatever message the hub accepts, from whomever, in a state whose claim
+    bookkeeping is consistent (and whose pre-migration wait list is empty), the bookkeeping is
+    consistent afterwards: the open batch's totals are the sums of its claims, every closed
+    unreleased batch's recorded amounts are the sums of its claims, nothing is recorded for future
+    batches. -/
+theorem C07_hub_step (h h' : HubSt) (e : HubEnv) (sender : Addr) (funds : List (Denom × Nat))
+    (m : HubMsg) (ms : List Msg) (inv : ClaimInv h) (hl : h.legacy = [])
+    (hx : hubExec h e sender funds m = .ok (h', ms)) : ClaimInv h' ∧ h'.legacy = [] := by
+  have keep : ∀ {x : HubSt}, KeepsClaims h x → ClaimInv x ∧ x.legacy = [] :=
+    fun k => ⟨ClaimInv.of_same k.same inv, by rw [k.legacy]; exact hl⟩
+  cases m with
+  | migrateWaitList limit =>
+    simp only [hubExec] at hx
+    split at hx
+    · injection hx with hx; injection hx with h1 _; subst h1
+      have : h.migrate limit = h := by simp [migrate, hl]
+      rw [this]; exact ⟨inv, hl⟩
+    · cases hx
+  | updateParams a b c d p r =>
+    simp only [hubExec] at hx
+    exc_norm at hx
+    split at hx
+    · cases hx
+    · rename_i h1 hp
+      injection hx with hx; injection hx with e1 _; subst e1
+      exact keep (updateParams_keeps _ _ _ _ _ _ _ _ _ hp)
+  | receive user amt hook =>
+    simp only [hubExec] at hx
+    split at hx
+    · cases hx
+    · exc_norm at hx
+      split at hx
+      · cases hx
+      · rename_i bt hb
+        split at hx
+        · cases hx
+        · rename_i stt hs
+          cases hook with
+          | other => simp only [] at hx; cases hx
+          | convert =>
+            simp only [] at hx
+            split at hx
+            · exact keep (convertBS_keeps _ _ _ _ _ _ hx)
+            · split at hx
+              · exact keep (convertSB_keeps _ _ _ _ _ _ hx)
+              · cases hx
+          | unbond =>
+            simp only [] at hx
+            split at hx
+            · obtain ⟨st, supply, wf, tok, hst, _, _, _, _, _, hcase⟩ := unbondB_spec _ _ _ _ _ _ hx
+              have k := actualState_keeps h st e hst
+              have inv1 : ClaimInv st := ClaimInv.of_same k.same inv
+              have c := C07_unbond_bsei_credits_sender_only st inv1 user supply amt wf
+              have l1 : (st.afterUnbondB user supply amt wf).legacy = [] := by
+                show st.legacy = []; rw [k.legacy]; exact hl
+              rcases hcase with ⟨_, um, hp, _⟩ | ⟨_, hh, _⟩
+              · exact ⟨C07_undelegation_keeps_claims _ _ _ _ c.1 hp,
+                  by rw [processUndelegations_legacy _ _ _ _ hp]; exact l1⟩
+              · subst hh; exact ⟨c.1, l1⟩
+            · split at hx
+              · obtain ⟨st, tok, hst, _, _, hcase⟩ := unbondS_spec _ _ _ _ _ _ hx
+                have k := actualState_keeps h st e hst
+                have inv1 : ClaimInv st := ClaimInv.of_same k.same inv
+                have c := C07_unbond_stsei_credits_sender_only st inv1 user amt
+                have l1 : (st.afterUnbondS user amt).legacy = [] := by
+                  show st.legacy = []; rw [k.legacy]; exact hl
+                rcases hcase with ⟨_, um, hp, _⟩ | ⟨_, hh, _⟩
+                · exact ⟨C07_undelegation_keeps_claims _ _ _ _ c.1 hp,
+                    by rw [processUndelegations_legacy _ _ _ _ hp]; exact l1⟩
+                · subst hh; exact ⟨c.1, l1⟩
+              · cases hx
+  | bond => simp only [hubExec] at hx; split at hx; · cases hx
+            · exact keep (bondB_keeps _ _ _ _ _ _ hx)
+  | bondForStSei => simp only [hubExec] at hx; split at hx; · cases hx
+                    · exact keep (bondS_keeps _ _ _ _ _ _ hx)
+  | bondRewards => simp only [hubExec] at hx; split at hx; · cases hx
+                   · exact keep (bondR_keeps _ _ _ _ _ _ hx)
+  | updateGlobalIndex => simp only [hubExec] at hx; split at hx; · cases hx
+                         · exact keep (updateGlobal_keeps _ _ _ _ _ hx)
+  | withdrawUnbonded =>
+    simp only [hubExec] at hx
+    split at hx
+    · cases hx
+    · have w := C07_withdraw_step h h' e sender ms inv hx
+      obtain ⟨_, h1, hp, _, _, hh, _⟩ := withdraw_spec h h' e sender ms hx
+      refine ⟨w.1, ?_⟩
+      subst hh
+      show (List.foldl (fun hh i => hh.delWait sender i) h1 (h1.finished sender).2).legacy = []
+      rw [delWait_fold_legacy, processWithdrawRate_legacy _ _ _ _ hp]; exact hl
+  | checkSlashing =>
+    simp only [hubExec] at hx
+    split at hx
+    · cases hx
+    · exc_norm at hx
+      split at hx
+      · cases hx
+      · rename_i st hst
+        injection hx with hx; injection hx with e1 _; subst e1
+        exact keep (actualState_keeps _ _ _ hst)
+  | updateConfig a b c d f g u =>
+    simp only [hubExec] at hx; split at hx; · cases hx
+    · exact keep (updateConfig_keeps _ _ _ _ _ _ _ _ _ _ _ _ hx)
+  | setOwner a =>
+    simp only [hubExec] at hx; exc_norm at hx; exc_split at hx
+    exact keep ⟨⟨rfl, rfl, rfl, rfl, rfl, rfl, rfl⟩, rfl⟩
+  | acceptOwnership =>
+    simp only [hubExec] at hx; exc_norm at hx; exc_split at hx
+    exact keep ⟨⟨rfl, rfl, rfl, rfl, rfl, rfl, rfl⟩, rfl⟩
+  | swapHook =>
+    simp only [hubExec] at hx; exc_norm at hx; exc_split at hx
+    exact ⟨inv, hl⟩
+  | claimAirdrop =>
+    simp only [hubExec] at hx; exc_norm at hx; exc_split at hx
+    exact ⟨inv, hl⟩
+  | redelegateProxy src plan =>
+    simp only [hubExec] at hx; exc_norm at hx; exc_split at hx
+    exact ⟨inv, hl⟩
+
+/-- **Every reachable state.** From any state with consistent claim bookkeeping (the instantiated
+    hub: `C07_init`), after any history of any length in which no pre-migration entries are
+    injected, the bookkeeping is consistent. -/
+theorem C07_reachable (s : Sys) (l : List Step) (inv : ClaimInv s.hub) (hl : s.hub.legacy = [])
+    (hnl : ∀ u b a, Step.env (.seedLegacy u b a) ∉ l) :
+    ClaimInv (s.steps l).hub ∧ (s.steps l).hub.legacy = [] := by
+  induction l generalizing s with
+  | nil => exact ⟨inv, hl⟩
+  | cons st rest ih =>
+    have hrest : ∀ u b a, Step.env (.seedLegacy u b a) ∉ rest :=
+      fun u b a hm => hnl u b a (List.mem_cons_of_mem _ hm)
+    show ClaimInv ((s.step st).steps rest).hub ∧ ((s.step st).steps rest).hub.legacy = []
+    have one : ClaimInv (s.step st).hub ∧ (s.step st).hub.legacy = [] := by
+      cases st with
+      | tx m =>
+        exact exec_inv (fun x => ClaimInv x.hub ∧ x.hub.legacy = [])
+          (by
+            intro x m' x' ms hp hx
+            cases handle_touch x x' m' ms hx with
+            | none h => rw [h.hub]; exact hp
+            | hub e sender funds hm hx' b t r d g => exact C07_hub_step _ _ _ _ _ _ _ hp.1 hp.2 hx'
+            | bsei blk rw sender tm hx' h t r d g => rw [h]; exact hp
+            | stsei blk sender tm hx' h b r d g => rw [h]; exact hp
+            | reward tok dsp bal sender rm hx' h b t d g => rw [h]; exact hp
+            | disp env sender dm hx' h b t r g => rw [h]; exact hp
+            | reg s1 sender rm h1 hx' h b t r d => rw [h]; exact hp)
+          s m ⟨inv, hl⟩
+      | env e =>
+        have hne : ∀ u b a, e ≠ .seedLegacy u b a := by
+          intro u b a he; subst he; exact hnl u b a (List.mem_cons_self ..)
+        have sc := env_same s e hne
+        show ClaimInv (s.env e).hub ∧ (s.env e).hub.legacy = []
+        rw [sc.hub]; exact ⟨inv, hl⟩
+    exact ih (s.step st) one.1 one.2 hrest
 
 end Krp
